@@ -41,7 +41,7 @@ def make(prop, oracle, theorems, *, domain=rc.in_c01_domain, gen_kwargs=None, mo
                     "suppressions of all five forms, half aimed at existing feedback); real = "
                     "pedal.resolvers.simple.resolve on MAIN_REPORT, model = Pedal.Resolver.resolve through the driver; "
                     "non-trivial = >=2 eligible feedbacks, or a suppression changing eligibility, or >=2 scored")
-        n = 400 if tier == "quick" else 20000
+        n = 4000 if tier == "quick" else 30000
         cases = corpus_cases("resolver") + corpus_cases(prop)
         for _ in range(n):
             r = rng.random()
@@ -107,7 +107,7 @@ def make(prop, oracle, theorems, *, domain=rc.in_c01_domain, gen_kwargs=None, mo
             consider(case, objs, real)
             if len(failures) >= 5:
                 break
-        n = 300 if tier == "quick" else 20000
+        n = 3000 if tier == "quick" else 30000
         if broken:
             n *= 5
         for case in corpus_cases("resolver") + corpus_cases(prop):
